@@ -667,7 +667,7 @@ func main() {
 				}
 				ast.Inspect(s, func(n ast.Node) bool {
 					if c, ok := n.(*ast.CallExpr); ok {
-						if se, ok := c.Fun.(*ast.SelectorExpr); ok && se.Sel.Name == "Call" {
+						if se, ok := c.Fun.(*ast.SelectorExpr); ok && (se.Sel.Name == "Call" || se.Sel.Name == "CallSlice") {
 							if _, isDefer := s.(*ast.DeferStmt); !isDefer {
 								callsInDoCall = append(callsInDoCall, fmt.Sprintf("%s afterDefer=%v", selString(c.Fun), seenDefer))
 							}
@@ -721,7 +721,7 @@ func main() {
 			}
 			ast.Inspect(fd.Body, func(n ast.Node) bool {
 				if c, ok := n.(*ast.CallExpr); ok {
-					if se, ok := c.Fun.(*ast.SelectorExpr); ok && se.Sel.Name == "Call" {
+					if se, ok := c.Fun.(*ast.SelectorExpr); ok && (se.Sel.Name == "Call" || se.Sel.Name == "CallSlice") {
 						otherCalls = append(otherCalls, funcKey(fd)+": "+selString(c.Fun))
 					}
 				}
